@@ -246,3 +246,37 @@ def run_sequence(ctx, cases, style_fn=None, timeout=600):
     if not r.get('ok'):
         return [('exc', r.get('exc', 'Other'), r.get('msg', ''))] * len(cases)
     return [impl_outcome({'ok': True, 'result': x}) for x in r['result']]
+
+
+def run_family(ctx, res, cases, features=None, chunk=400, style_fn=None):
+    """The C01-style loop: corpus + cases through implementation / Engine / Spec with the acceptance rule."""
+    known = set(ctx.known)
+    batch = Batch(ctx)
+    corpus = [f['replay'] for f in ctx.known.values() if isinstance(f.get('replay'), dict) and 'doc' in f['replay']]
+    allc = corpus + cases
+    seen = {}
+    for st in range(0, len(allc), chunk):
+        for rec in batch.run(allc[st:st + chunk], style_fn=style_fn):
+            tag = judge(res, rec, known)
+            if features:
+                try:
+                    fts = features(rec['case'])
+                except Exception:
+                    fts = {'corpus-shape'}
+                for ft in fts:
+                    seen[ft] = seen.get(ft, 0) + 1
+            if rec['spec'] and rec['spec'][0] == 'ok' and rec['spec'][1]:
+                res.distinct.add(json.dumps(rec['case'], sort_keys=True, ensure_ascii=False))
+            if rec['impl'][0] == 'exc':
+                res.count('impl-exception:' + rec['impl'][1])
+            if len(res.samples) < 3 and tag == 'agree' and rec['impl'][0] == 'ok' and rec['impl'][1]:
+                res.samples.append({'case': rec['case'], 'lines': rec['impl'][1][:3]})
+    res.histogram.update({'feature:' + k: v for k, v in sorted(seen.items())})
+    res.extra['corpus_cases'] = len(corpus)
+
+
+def replay_family(ctx, res, payload):
+    case = payload.get('case')
+    rec = Batch(ctx).run([case])[0]
+    print('replay: impl=%s\n model=%s\n spec=%s' % (str(rec['impl'])[:1500], str(rec['model'])[:1500], str(rec['spec'])[:1500]))
+    judge(res, rec, set(ctx.known))
